@@ -32,6 +32,39 @@ type c15Repl struct {
 
 	mapMsgs, idMsgs, ptMsgs, treeMsgs c15Msgs
 	s1Seen, s2Seen, recSeen           bool
+
+	// the replacement is split into several recursive walks and this is one of
+	// them: it is held only to the duties it takes on (what it writes)
+	multi                              bool
+	writesID, writesParent, writesText bool
+	nIdx, pIdx                         int // positions of N and P among the parameters (pIdx -1: no parent parameter)
+}
+
+// duty names what the walk leaves undone in a subtree it does not enter.
+func (r *c15Repl) duty() string {
+	if !r.multi {
+		return "its id and parent are"
+	}
+	var d []string
+	if r.writesID {
+		d = append(d, "id")
+	}
+	if r.writesParent {
+		d = append(d, "parent")
+	}
+	if r.writesText {
+		d = append(d, "node-id points")
+	}
+	return "(walk " + r.f.Name + ") its " + strings.Join(d, ", ") + " are"
+}
+
+func (m *c15Msgs) add(o c15Msgs) {
+	for _, x := range o.v {
+		c16Add(&m.v, x)
+	}
+	for _, x := range o.u {
+		c16Add(&m.u, x)
+	}
 }
 
 func (r *c15Repl) isN(e ast.Expr) bool { return c15IsVar(r.info, r.N)(e) }
@@ -262,22 +295,52 @@ func c15KeyName(K string) string {
 	return K
 }
 
-func c15R3(c *kit.Ctx, a *c15Anchors, r3 *kit.Rule) {
-	f := a.replacer
+// c15R3Pass runs the flow of one recursive walk of the replacement and collects
+// what it finds; c15R3 settles the obligations over all walks.
+func c15R3Pass(c *kit.Ctx, a *c15Anchors, f *kit.Func, multi bool) *c15Repl {
 	info := f.Info()
-	r := &c15Repl{c: c, a: a, f: f, info: info, nid: dataConst(c, "PointTypeNodeID")}
-	for _, p := range f.Params() {
+	r := &c15Repl{c: c, a: a, f: f, info: info, nid: dataConst(c, "PointTypeNodeID"), multi: multi, nIdx: -1, pIdx: -1}
+	for i, p := range f.Params() {
 		if _, isPtr := p.Type().(*types.Pointer); isPtr && c15IsNEC(p.Type()) {
-			r.N = p
+			r.N, r.nIdx = p, i
 		} else if b, ok := p.Type().Underlying().(*types.Basic); ok && b.Kind() == types.String {
 			if r.P != nil {
 				c.Fatalf("replacer %s has two string parameters", f.Name)
 			}
-			r.P = p
+			r.P, r.pIdx = p, i
 		}
 	}
-	if r.N == nil || r.P == nil {
+	if r.N == nil || (r.P == nil && !multi) {
 		c.Fatalf("replacer %s: expected (*NodeEdgeChildren, string) parameters", f.Name)
+	}
+	helpers := a.replPassHelpers[f]
+	// what this walk takes on
+	ast.Inspect(f.Body, func(n ast.Node) bool {
+		if as, ok := n.(*ast.AssignStmt); ok {
+			for _, l := range as.Lhs {
+				if c15Field(info, l, "ID", r.isN) {
+					r.writesID = true
+				}
+				if c15Field(info, l, "Parent", r.isN) {
+					r.writesParent = true
+				}
+			}
+		}
+		return true
+	})
+	r.writesText = c15WritesPointText(f, r)
+	if multi && !r.writesID {
+		// whether N.ID is still the old id here depends on the order in which the walks are started
+		ast.Inspect(f.Body, func(n ast.Node) bool {
+			if sel, ok := n.(*ast.SelectorExpr); ok && c15Field(info, sel, "ID", r.isN) {
+				r.idMsgs.undec("%s reads the node's ID (%s) but another walk replaces it: whether this is the old or the new id depends on the order of the walks, which the rule does not follow", f.Name, f.At(sel))
+				return false
+			}
+			return true
+		})
+		if r.writesParent {
+			r.treeMsgs.undec("%s sets the node's Parent but another walk replaces the ids: whether the children receive the new id is not followed", f.Name)
+		}
 	}
 	// the map and the two loops
 	ast.Inspect(f.Body, func(n ast.Node) bool {
@@ -308,7 +371,7 @@ func c15R3(c *kit.Ctx, a *c15Anchors, r3 *kit.Rule) {
 		}
 	}
 	r.helpers = map[*kit.Func]bool{}
-	for _, h := range a.replHelpers {
+	for _, h := range helpers {
 		r.helpers[h] = true
 		c.Analysed(h)
 		ast.Inspect(h.Body, func(n ast.Node) bool {
@@ -318,13 +381,12 @@ func c15R3(c *kit.Ctx, a *c15Anchors, r3 *kit.Rule) {
 			return true
 		})
 	}
-	if r.M == nil {
+	if r.M == nil && !multi {
 		c.Fatalf("replacer %s: map variable not found", f.Name)
 	}
 
 	// ---- one map, created once, outside the recursion
-	oMap := r3.Ob(f, f.Node(), "one id map", "all lookups and stores go through one map[string]string that is created once outside the recursive function")
-	{
+	if r.M != nil {
 		inside := f.Node().Pos() <= r.M.Pos() && r.M.Pos() <= f.Node().End()
 		isParam := false
 		for _, p := range f.Params() {
@@ -335,7 +397,7 @@ func c15R3(c *kit.Ctx, a *c15Anchors, r3 *kit.Rule) {
 		// the map is indexed in a helper through the helper's receiver or parameter:
 		// judge the object the replacer hands in
 		helperOwned := false
-		for _, h := range a.replHelpers {
+		for _, h := range helpers {
 			if h.Node().Pos() <= r.M.Pos() && r.M.Pos() <= h.Node().End() {
 				var handed types.Object
 				okAll := true
@@ -407,7 +469,7 @@ func c15R3(c *kit.Ctx, a *c15Anchors, r3 *kit.Rule) {
 				case f.Node().Pos() <= handed.Pos() && handed.Pos() <= f.Node().End():
 					r.mapMsgs.viol("the map %s is created inside the recursive function: every node gets its own map and references between nodes are replaced inconsistently", handed.Name())
 				}
-				for _, g := range append([]*kit.Func{f}, a.replHelpers...) {
+				for _, g := range append([]*kit.Func{f}, helpers...) {
 					ast.Inspect(g.Body, func(x ast.Node) bool {
 						if as, ok := x.(*ast.AssignStmt); ok {
 							for _, l := range as.Lhs {
@@ -437,7 +499,7 @@ func c15R3(c *kit.Ctx, a *c15Anchors, r3 *kit.Rule) {
 					r.mapMsgs.undec("%s: the recursion does not visibly go through the same receiver (which holds the map %s)", f.Str(call), r.M.Name())
 				}
 			}
-			for _, g := range append([]*kit.Func{f}, a.replHelpers...) {
+			for _, g := range append([]*kit.Func{f}, helpers...) {
 				ast.Inspect(g.Body, func(x ast.Node) bool {
 					if as, ok := x.(*ast.AssignStmt); ok {
 						for _, l := range as.Lhs {
@@ -521,14 +583,20 @@ func c15R3(c *kit.Ctx, a *c15Anchors, r3 *kit.Rule) {
 
 	closeIteration := func(s kit.S) {
 		nid, emp, s2 := s.Get("a:nid"), s.Get("a:emp:txt"), s.Get("s2") == "1"
-		if !s2 && nid != "F" && emp != "T" {
-			r.ptMsgs.viol("a node-id point with non-empty text can pass the loop at %s without its text being replaced in the node's Points slice: the reference keeps the old id", f.At(r.ptsLoop))
+		if !s2 && nid != "F" && emp != "T" && (r.writesText || !multi) {
+			if multi && r.missKnown(s, "txt") && !r.hitKnown(s, "txt") {
+				// after a walk that has recorded every node of the document, a miss is a
+				// reference to a node outside of it; the order of the walks is not followed
+				r.ptMsgs.undec("in %s a node-id point whose text is not found in the map keeps its text (loop at %s): when the ids were recorded by an earlier walk this is a reference out of the document, which the one-walk replacement gives a fresh id; when the walks run the other way round no reference is replaced", f.Name, f.At(r.ptsLoop))
+			} else {
+				r.ptMsgs.viol("a node-id point with non-empty text can pass the loop at %s without its text being replaced in the node's Points slice: the reference keeps the old id", f.At(r.ptsLoop))
+			}
 		}
 		if s2 && emp != "F" {
 			r.ptMsgs.viol("a node-id point whose text may be empty is given an id in the loop at %s: an empty reference comes back from the import pointing to a node", f.At(r.ptsLoop))
 		}
 		if s2 && nid != "T" {
-			r.ptMsgs.viol("the text of a point whose type is not known to be nodeID can be replaced in the loop at %s", f.At(r.ptsLoop))
+			r.ptMsgs.viol("the text of a point whose type is not known to be nodeID can be replaced in the loop at %s: an ordinary point (description, units, …) whose text equals an id known to the map comes back from the import holding the replacement id", f.At(r.ptsLoop))
 		}
 		if p := s.Get("pend:txt"); p != "" {
 			r.ptMsgs.viol("a fresh id is written to a node-id point (%s) without being recorded in the map under the old text: the node it refers to receives a different id", p[strings.Index(p, "@")+1:])
@@ -558,7 +626,7 @@ func c15R3(c *kit.Ctx, a *c15Anchors, r3 *kit.Rule) {
 			return []kit.S{base.Set("pit", "1")}, []kit.S{base.Del("pit").Set("pdone", "1")}, true
 		case r.chLoop:
 			if s.Get("cit") == "1" && s.Get("crec") != "1" {
-				r.treeMsgs.viol("a path through the loop over the children at %s does not recurse into the current child: its id and parent are not replaced", f.At(r.chLoop))
+				r.treeMsgs.viol("a path through the loop over the children at %s does not recurse into the current child: %s not replaced", f.At(r.chLoop), r.duty())
 			}
 			base := s.Del("crec")
 			return []kit.S{base.Set("cit", "1")}, []kit.S{base.Del("cit").Set("cdone", "1")}, true
@@ -571,13 +639,13 @@ func c15R3(c *kit.Ctx, a *c15Anchors, r3 *kit.Rule) {
 			return nil
 		}
 		r.recSeen = true
-		if len(call.Args) != 2 {
+		if len(call.Args) != len(f.Params()) {
 			r.treeMsgs.undec("recursive call %s", f.Str(call))
 			return nil
 		}
-		// first argument: &N.Children[<key>]
+		// node argument: &N.Children[<key>]
 		okArg := false
-		if u, ok := ast.Unparen(call.Args[0]).(*ast.UnaryExpr); ok && u.Op == token.AND && r.chLoop != nil {
+		if u, ok := ast.Unparen(call.Args[r.nIdx]).(*ast.UnaryExpr); ok && u.Op == token.AND && r.chLoop != nil {
 			x := ast.Unparen(u.X)
 			if ix, ok := x.(*ast.IndexExpr); ok && r.chLoop.Key != nil && kit.ObjOf(info, ix.Index) == kit.ObjOf(info, r.chLoop.Key) &&
 				c15Field(info, ix.X, "Children", r.isN) {
@@ -593,8 +661,12 @@ func c15R3(c *kit.Ctx, a *c15Anchors, r3 *kit.Rule) {
 		if s.Get("cit") != "1" {
 			r.treeMsgs.undec("%s is not inside the loop over the node's Children", f.Str(call))
 		}
-		// second argument: the node's new id
-		arg := call.Args[1]
+		// a walk of a split replacement that does not set Parent hands nothing down
+		if r.pIdx < 0 || (multi && !(r.writesParent && r.writesID)) {
+			return []kit.S{s.Set("crec", "1")}
+		}
+		// parent argument: the node's new id
+		arg := call.Args[r.pIdx]
 		switch {
 		case c15Field(info, arg, "ID", r.isN):
 			if s.Get("s1") != "1" {
@@ -792,13 +864,13 @@ func c15R3(c *kit.Ctx, a *c15Anchors, r3 *kit.Rule) {
 	}
 	for _, e := range res.Exits {
 		s := e.State
-		if s.Get("s1") != "1" {
+		if s.Get("s1") != "1" && (r.writesID || !multi) {
 			r.idMsgs.viol("%s can return without replacing the node's ID", f.Name)
 		}
 		if p := s.Get("pend:id"); p != "" {
 			r.idMsgs.viol("a fresh id is written to a node with a non-empty old id (%s) without being recorded in the map under the old id: node-id points that refer to this node receive a different id", p[strings.Index(p, "@")+1:])
 		}
-		if s.Get("sp") != "1" {
+		if s.Get("sp") != "1" && (r.writesParent || !multi) {
 			r.treeMsgs.viol("%s can return without setting the node's Parent to the parent handed down", f.Name)
 		}
 		if r.ptsLoop != nil && s.Get("pdone") != "1" {
@@ -814,27 +886,6 @@ func c15R3(c *kit.Ctx, a *c15Anchors, r3 *kit.Rule) {
 	if len(res.Exits) == 0 {
 		r.idMsgs.undec("%s has no exit", f.Name)
 	}
-	r.mapMsgs.settle(oMap, "map %s declared at %s, assigned once, shared by every call", r.M.Name(), c.P.Pos(r.M.Pos()))
-
-	oID := r3.Ob(f, f.Node(), "node id", "the id written to a node was found in the map under the node's old id, or is fresh and recorded under the old id after a failed lookup (empty old ids excepted)")
-	if !r.s1Seen {
-		r.idMsgs.viol("%s never assigns the node's ID", f.Name)
-	}
-	r.idMsgs.settle(oID, "lookup-or-create under the old id on every path")
-
-	oPt := r3.Ob(f, f.Node(), "node-id points", "exactly the points of type nodeID with non-empty text are rewritten, in the node's slice, by the same lookup-or-create under the old text")
-	if r.ptsLoop == nil {
-		if c15WritesPointText(f, r) {
-			r.ptMsgs.undec("%s rewrites point texts in a loop the rule does not model (not a range over the node's Points)", f.Name)
-		} else {
-			r.ptMsgs.viol("%s does not visit the node's points: references held in node-id points keep the old ids", f.Name)
-		}
-	} else if !r.s2Seen {
-		r.ptMsgs.viol("%s never writes the text of an element of the node's Points slice", f.Name)
-	}
-	r.ptMsgs.settle(oPt, "lookup-or-create under the old text; only nodeID points with text")
-
-	oTree := r3.Ob(f, f.Node(), "parent and children", "the node's Parent is the parent handed down; every child is visited through its slice element with the node's new id as parent")
 	if r.chLoop == nil {
 		if r.recSeen {
 			r.treeMsgs.undec("%s visits the children in a loop the rule does not model (not a range over the node's Children)", f.Name)
@@ -844,57 +895,181 @@ func c15R3(c *kit.Ctx, a *c15Anchors, r3 *kit.Rule) {
 	} else if !r.recSeen {
 		r.treeMsgs.viol("%s never recurses", f.Name)
 	}
-	r.treeMsgs.settle(oTree, "Parent = handed-down parent; recursion on &Children[i] with the new id")
+	return r
+}
 
-	// ---- entry call: from the enclosing function, or (declared replacer) from its callers
-	oEntry := r3.Ob(f, f.Node(), "entry call", "the replacement is started on the tree and the parent given to the entry function")
-	var callers []*kit.Func
-	if f.Outer != nil {
-		callers = []*kit.Func{f.Outer}
-	} else {
-		for _, g := range c.P.Funcs("client") {
-			if g == f || g.Body == nil || g.Lit != nil {
-				continue
-			}
-			for _, call := range g.AllCalls(false) {
-				if g.CalleeFunc(call) == f {
-					callers = append(callers, g)
-					break
-				}
+// c15R3 judges the id replacement: one recursive walk over the tree, or several
+// walks of one enclosing function (assign the ids / rewrite the references) that
+// share the map.  Every walk is run on its own; what is required of the
+// replacement as a whole is settled here.
+func c15R3(c *kit.Ctx, a *c15Anchors, r3 *kit.Rule) {
+	multi := len(a.replPasses) > 1
+	var passes []*c15Repl
+	for _, f := range a.replPasses {
+		passes = append(passes, c15R3Pass(c, a, f, multi))
+	}
+	lead := a.replacer
+	info := lead.Info()
+	names := func(sel func(*c15Repl) bool) string {
+		var out []string
+		for _, r := range passes {
+			if sel(r) {
+				out = append(out, r.f.Name)
 			}
 		}
+		return strings.Join(out, ", ")
 	}
+	pick := func(sel func(*c15Repl) bool) *kit.Func {
+		for _, r := range passes {
+			if sel(r) {
+				return r.f
+			}
+		}
+		return lead
+	}
+
+	// ---- one map
+	oMap := r3.Ob(lead, lead.Node(), "one id map", "all lookups and stores go through one map[string]string that is created once outside the recursive function")
+	var mapMsgs c15Msgs
+	var M types.Object
+	for _, r := range passes {
+		mapMsgs.add(r.mapMsgs)
+		switch {
+		case r.M == nil:
+		case M == nil:
+			M = r.M
+		case M != r.M:
+			mapMsgs.viol("%s translates ids through the map %s, an earlier walk through %s: a node and the references to it are replaced independently", r.f.Name, r.M.Name(), M.Name())
+		}
+	}
+	if M == nil {
+		c.Fatalf("replacer %s: map variable not found", lead.Name)
+	}
+	mapMsgs.settle(oMap, "map %s declared at %s, assigned once, shared by every call", M.Name(), c.P.Pos(M.Pos()))
+
+	// ---- node id
+	fID := pick(func(r *c15Repl) bool { return r.writesID })
+	oID := r3.Ob(fID, fID.Node(), "node id", "the id written to a node was found in the map under the node's old id, or is fresh and recorded under the old id after a failed lookup (empty old ids excepted)")
+	var idMsgs c15Msgs
+	nID := 0
+	for _, r := range passes {
+		idMsgs.add(r.idMsgs)
+		if r.s1Seen {
+			nID++
+		}
+	}
+	switch {
+	case nID == 0:
+		idMsgs.viol("%s never assigns the node's ID", names(func(*c15Repl) bool { return true }))
+	case nID > 1:
+		idMsgs.undec("the node's ID is replaced in more than one walk (%s): the later one looks up ids that are already new", names(func(r *c15Repl) bool { return r.s1Seen }))
+	}
+	idMsgs.settle(oID, "lookup-or-create under the old id on every path")
+
+	// ---- node-id points
+	fPt := pick(func(r *c15Repl) bool { return r.ptsLoop != nil && r.writesText })
+	oPt := r3.Ob(fPt, fPt.Node(), "node-id points", "exactly the points of type nodeID with non-empty text are rewritten, in the node's slice, by the same lookup-or-create under the old text")
+	var ptMsgs c15Msgs
+	nLoop, nS2, anyText := 0, 0, false
+	for _, r := range passes {
+		ptMsgs.add(r.ptMsgs)
+		if r.ptsLoop != nil {
+			nLoop++
+		}
+		if r.s2Seen {
+			nS2++
+		}
+		anyText = anyText || r.writesText
+	}
+	all := names(func(*c15Repl) bool { return true })
+	switch {
+	case nLoop == 0 && anyText:
+		ptMsgs.undec("%s rewrites point texts in a loop the rule does not model (not a range over the node's Points)", all)
+	case nLoop == 0:
+		ptMsgs.viol("%s does not visit the node's points: references held in node-id points keep the old ids", all)
+	case nS2 == 0:
+		ptMsgs.viol("%s never writes the text of an element of the node's Points slice", all)
+	case nS2 > 1:
+		ptMsgs.undec("point texts are rewritten in more than one walk (%s): the later one looks up texts that are already new", names(func(r *c15Repl) bool { return r.s2Seen }))
+	}
+	ptMsgs.settle(oPt, "lookup-or-create under the old text; only nodeID points with text")
+
+	// ---- parent and children
+	fTree := pick(func(r *c15Repl) bool { return r.writesParent })
+	oTree := r3.Ob(fTree, fTree.Node(), "parent and children", "the node's Parent is the parent handed down; every child is visited through its slice element with the node's new id as parent")
+	var treeMsgs c15Msgs
+	nPar := 0
+	for _, r := range passes {
+		treeMsgs.add(r.treeMsgs)
+		if r.writesParent {
+			nPar++
+		}
+	}
+	if multi && nPar == 0 {
+		treeMsgs.viol("none of %s sets the node's Parent: the imported nodes keep the parents recorded in the file", all)
+	}
+	treeMsgs.settle(oTree, "Parent = handed-down parent; recursion on &Children[i] with the new id")
+
+	// ---- entry calls: from the enclosing function, or (declared replacer) from its callers
+	oEntry := r3.Ob(lead, lead.Node(), "entry call", "the replacement is started on the tree and the parent given to the entry function")
 	var m c15Msgs
-	n := 0
-	names := ""
-	for _, outer := range callers {
-		c.Analysed(outer)
-		names += outer.Name + " "
-		for _, call := range outer.AllCalls(false) {
-			if outer.CalleeFunc(call) != f || len(call.Args) != 2 {
-				continue
-			}
-			n++
-			var np, sp *types.Var
-			for _, p := range outer.Params() {
-				if _, isPtr := p.Type().(*types.Pointer); isPtr && c15IsNEC(p.Type()) {
-					np = p
-				} else if b, ok := p.Type().Underlying().(*types.Basic); ok && b.Kind() == types.String {
-					sp = p
+	started := ""
+	for _, r := range passes {
+		f := r.f
+		var callers []*kit.Func
+		if f.Outer != nil {
+			callers = []*kit.Func{f.Outer}
+		} else {
+			for _, g := range c.P.Funcs("client") {
+				if g == f || g.Body == nil || g.Lit != nil {
+					continue
+				}
+				for _, call := range g.AllCalls(false) {
+					if g.CalleeFunc(call) == f {
+						callers = append(callers, g)
+						break
+					}
 				}
 			}
-			if np == nil || kit.ObjOf(info, call.Args[0]) != np {
-				m.undec("%s: first argument is not the tree parameter", outer.Str(call))
-			}
-			if sp == nil || kit.ObjOf(info, call.Args[1]) != sp {
-				m.undec("%s: second argument is not the parent parameter", outer.Str(call))
+		}
+		n := 0
+		where := ""
+		for _, outer := range callers {
+			c.Analysed(outer)
+			where += outer.Name + " "
+			for _, call := range outer.AllCalls(false) {
+				if outer.CalleeFunc(call) != f || len(call.Args) != len(f.Params()) {
+					continue
+				}
+				n++
+				var np, sp *types.Var
+				for _, p := range outer.Params() {
+					if _, isPtr := p.Type().(*types.Pointer); isPtr && c15IsNEC(p.Type()) {
+						np = p
+					} else if b, ok := p.Type().Underlying().(*types.Basic); ok && b.Kind() == types.String {
+						sp = p
+					}
+				}
+				if np == nil || kit.ObjOf(info, call.Args[r.nIdx]) != np {
+					m.undec("%s: first argument is not the tree parameter", outer.Str(call))
+				}
+				if r.pIdx >= 0 && (sp == nil || kit.ObjOf(info, call.Args[r.pIdx]) != sp) {
+					m.undec("%s: second argument is not the parent parameter", outer.Str(call))
+				}
 			}
 		}
+		if n != 1 {
+			m.undec("%d entry calls of %s (in %s)", n, f.Name, strings.TrimSpace(where))
+		}
+		if !strings.Contains(" "+started, " "+where) {
+			started += where
+		}
 	}
-	if n != 1 {
-		m.undec("%d entry calls of %s (in %s)", n, f.Name, strings.TrimSpace(names))
+	if multi {
+		m.settle(oEntry, "%s starts every walk (%s) once on its own parameters", strings.TrimSpace(started), all)
+	} else {
+		m.settle(oEntry, "%s starts the recursion on its own parameters", strings.TrimSpace(started))
 	}
-	m.settle(oEntry, "%s starts the recursion on its own parameters", strings.TrimSpace(names))
 }
 
 func c15WritesPointText(f *kit.Func, r *c15Repl) bool {
